@@ -35,13 +35,11 @@ private def ints (l : List String) : Option (List Int) := l.mapM decInt
 private def tdOf (d s : Int) : Option TD := if 0 ≤ s then some ⟨d, s.toNat⟩ else none
 private def tdS (t : TD) : String := s!"{t.days},{t.seconds}"
 
-private def excS : Exc → String
-  | .valueError => "err:ValueError"
-  | .overflowError => "err:OverflowError"
-  | .keyError => "err:KeyError"
-  | .indexError => "err:IndexError"
-  | .attributeError => "err:AttributeError"
-  | .typeError => "err:TypeError"
+/-- `err:<ExceptionName>` from the constructor name (`valueError` -> `err:ValueError`) -/
+def excS (e : Exc) : String :=
+  match (((reprStr e).splitOn ".").getLast!).toList with
+  | c :: cs => "err:" ++ String.ofList (c.toUpper :: cs)
+  | [] => "err:"
 
 private def pyS {α : Type} (f : α → String) : Py α → String
   | .ok v => "ok:" ++ f v
